@@ -47,6 +47,7 @@ def scalar_mapping(model):
     vector: {'scalar': {Operation member: OpCode member}, 'vector': {...}}"""
     fo = model.func(IR, "BinaryInstruction.FromOperation")
     out = {}
+    mapnames = set()
     for n in ast.walk(fo):
         if isinstance(n, ast.If):
             cur = n
@@ -54,6 +55,8 @@ def scalar_mapping(model):
                 t = unparse(cur.test)
                 kind = "scalar" if "IsScalar" in t else "vector" if "IsVector" in t else "matrix" if "IsMatrix" in t else None
                 for st in cur.body:
+                    if isinstance(st, ast.Assign) and isinstance(st.value, ast.Dict) and kind and isinstance(st.targets[0], ast.Name):
+                        mapnames.add(st.targets[0].id)
                     if isinstance(st, ast.Assign) and isinstance(st.value, ast.Dict) and kind and kind not in out:
                         d = model.fold(st.value)
                         out[kind] = {k.member: v.member for k, v in d.items() if isinstance(k, EnumRef) and isinstance(v, EnumRef)}
@@ -64,7 +67,7 @@ def scalar_mapping(model):
     if "scalar" not in out:
         raise AnchorMissing(f"{IR}::BinaryInstruction.FromOperation: scalar `mapping` table not found")
     # final lookup must be mapping[operation]
-    looks = [n for n in ast.walk(fo) if isinstance(n, ast.Subscript) and isinstance(n.value, ast.Name) and n.value.id == "mapping"]
+    looks = [n for n in ast.walk(fo) if isinstance(n, ast.Subscript) and isinstance(n.value, ast.Name) and n.value.id in mapnames and isinstance(n.ctx, ast.Load)]
     return out, fo, looks
 
 
@@ -169,7 +172,7 @@ def run_R01_1(model, col, G, vm):
     fop = [a.arg for a in fo.args.args]
     # the table-driven construction keeps (v1, v2); the kind-specific special cases may swap a commutative
     # scalar/vector multiply but must pass exactly the two operands
-    generic = [c for c in ctor if len(c.args) == 4 and "mapping[" in unparse(c.args[0])]
+    generic = [c for c in ctor if len(c.args) == 4 and any(x is c.args[0] or any(x is y for y in ast.walk(c.args[0])) for x in looks)]
     special = [c for c in ctor if c not in generic]
     okc = bool(generic) and all([unparse(a) for a in c.args[2:]] == fop[-2:] for c in generic) and \
         all(len(c.args) == 4 and sorted(unparse(a) for a in c.args[2:]) == sorted(fop[-2:]) and
